@@ -80,6 +80,11 @@ THEOREMS = [
     "JanetModel.Props.C11.phys_insert_safe",
     "JanetModel.Props.C11.phys_api_history_safe",
     "JanetModel.Props.C11.stringend_rewrite_fits",
+    "JanetModel.Props.C11.generated_error_flag_iff",
+    "JanetModel.Props.C11.generated_error_marked",
+    "JanetModel.Props.C11.consumer_error_flag_discipline",
+    "JanetModel.Props.C11.generated_message_not_static",
+    "JanetModel.Props.C11.err_flag_source_sites",
     "JanetModel.Props.C11.stack_push_in_bounds",
     "JanetModel.Props.C11.capacity_invariant",
     "JanetModel.Props.C11.consume_capacity",
